@@ -17,7 +17,7 @@ theorem Agree.symm {D : Res → Bool} {s1 s2 : Cpu} (h : Agree D s1 s2) : Agree 
    fun e => ⟨(h.nz e).1.symm, (h.nz e).2.symm⟩, fun e => (h.c e).symm⟩
 
 theorem agree_barrier {opt : VCode} {k : Nat} {s1 s2 : Cpu} (h : Agree (fun r => dead opt r k) s1 s2)
-    (hb : match opt[k]? with | some .dummy | some (.lab _) | some (.ins _ _) => False | _ => True) : s1 = s2 :=
+    (hb : match opt[k]? with | some .dummy | some (.lab _) | some (.ins _ _) | some .rts => False | _ => True) : s1 = s2 :=
   Agree.full (h.weaken (fun r _ => dead_barrier opt r k hb))
 
 theorem atLine_holds (K' : Facts) (s : Cpu) (h : K'.holds s) (l : VLine) :
@@ -135,9 +135,9 @@ theorem corr_kept (extF : Nat → Cpu → Cpu) (orig opt : VCode) (acc : Accepte
       funext r; exact (dead_filler opt r k (Or.inl hlp)).symm
     rw [this]; exact hag
   | rts =>
-    have hs : s1 = s2 := agree_barrier hag (by simp [hlp])
-    subst hs
-    exact Corr.halt s1 (by simp [step, hlo]) (by simp [step, hlp])
+    refine Corr.halt s1 s2 (by simp [step, hlo]) (by simp [step, hlp]) ?_
+    have : (fun r => dead opt r k) = exitDead := by funext r; exact dead_rts opt r k hlp
+    rw [this] at hag; exact hag
   | ext id =>
     have hmid : ¬ ∃ c o', (c = Mn.CLC ∨ c = Mn.SEC) ∧ opt[k]? = some (.ins c .none) ∧ orig[k]? = some (.ins .LDA o') := by
       rintro ⟨c, o', hc, h1, h2⟩; rw [hlo] at h2; simp at h2
@@ -407,50 +407,50 @@ theorem corr (extF : Nat → Cpu → Cpu) (orig opt : VCode) (acc : Accepted ori
 /-- every state reachable in lock step keeps the invariant: forward simulation -/
 theorem sim_fwd (extF : Nat → Cpu → Cpu) (orig opt : VCode) (acc : Accepted orig opt) :
     ∀ (n k : Nat) (s1 s2 r : Cpu), Inv orig opt k s1 s2 → run extF orig n k s1 = some r →
-      ∃ m, run extF opt m k s2 = some r := by
+      ∃ m r', run extF opt m k s2 = some r' ∧ Agree exitDead r r' := by
   intro n
   induction n using Nat.strongRecOn with
   | _ n ih =>
     intro k s1 s2 r hinv hrun
     cases corr extF orig opt acc k s1 s2 hinv with
-    | halt r' h1 h2 =>
+    | halt r1 r2 h1 h2 hag =>
       cases n with
       | zero => simp [run] at hrun
       | succ n =>
         simp only [run, h1] at hrun
         cases hrun
-        exact ⟨1, by simp [run, h2]⟩
+        exact ⟨1, r2, by simp [run, h2], hag⟩
     | go a b k' s1' s2' ha hb h1 h2 hinv' =>
       by_cases hna : n ≤ a
       · rw [run_short extF orig a n k s1 k' s1' h1 hna] at hrun; cases hrun
       · have hn : n = a + (n - a) := by omega
         rw [hn, run_adv extF orig a (n - a) k s1 k' s1' h1] at hrun
-        obtain ⟨m, hm⟩ := ih (n - a) (by omega) k' s1' s2' r hinv' hrun
-        exact ⟨b + m, by rw [run_adv extF opt b m k s2 k' s2' h2]; exact hm⟩
+        obtain ⟨m, r', hm, hag⟩ := ih (n - a) (by omega) k' s1' s2' r hinv' hrun
+        exact ⟨b + m, r', by rw [run_adv extF opt b m k s2 k' s2' h2]; exact hm, hag⟩
     | stuck h1 _ => rw [h1 n] at hrun; cases hrun
 
 theorem sim_bwd (extF : Nat → Cpu → Cpu) (orig opt : VCode) (acc : Accepted orig opt) :
-    ∀ (m k : Nat) (s1 s2 r : Cpu), Inv orig opt k s1 s2 → run extF opt m k s2 = some r →
-      ∃ n, run extF orig n k s1 = some r := by
+    ∀ (m k : Nat) (s1 s2 r' : Cpu), Inv orig opt k s1 s2 → run extF opt m k s2 = some r' →
+      ∃ n r, run extF orig n k s1 = some r ∧ Agree exitDead r r' := by
   intro m
   induction m using Nat.strongRecOn with
   | _ m ih =>
-    intro k s1 s2 r hinv hrun
+    intro k s1 s2 r' hinv hrun
     cases corr extF orig opt acc k s1 s2 hinv with
-    | halt r' h1 h2 =>
+    | halt r1 r2 h1 h2 hag =>
       cases m with
       | zero => simp [run] at hrun
       | succ m =>
         simp only [run, h2] at hrun
         cases hrun
-        exact ⟨1, by simp [run, h1]⟩
+        exact ⟨1, r1, by simp [run, h1], hag⟩
     | go a b k' s1' s2' ha hb h1 h2 hinv' =>
       by_cases hmb : m ≤ b
       · rw [run_short extF opt b m k s2 k' s2' h2 hmb] at hrun; cases hrun
       · have hm : m = b + (m - b) := by omega
         rw [hm, run_adv extF opt b (m - b) k s2 k' s2' h2] at hrun
-        obtain ⟨n, hn⟩ := ih (m - b) (by omega) k' s1' s2' r hinv' hrun
-        exact ⟨a + n, by rw [run_adv extF orig a n k s1 k' s1' h1]; exact hn⟩
+        obtain ⟨n, r, hn, hag⟩ := ih (m - b) (by omega) k' s1' s2' r' hinv' hrun
+        exact ⟨a + n, r, by rw [run_adv extF orig a n k s1 k' s1' h1]; exact hn, hag⟩
     | stuck _ h2 => rw [h2 m] at hrun; cases hrun
 
 theorem mid_zero (orig opt : VCode) (acc : Accepted orig opt) (K : Facts)
@@ -490,12 +490,15 @@ theorem inv_entry (orig opt : VCode) (acc : Accepted orig opt) (s : Cpu) : Inv o
     exact Or.inr ⟨mid_zero orig opt acc K'' hf, K'', hf, hh'', Agree.refl _ _⟩
 
 /-- **soundness of the validator**: if `validate orig opt` accepts, then from every machine state and with
-    every behaviour of the instructions outside the reasoned set, `orig` returns in state `r` exactly when `opt` does -/
-theorem validate_sound (extF : Nat → Cpu → Cpu) (orig opt : VCode) (h : validate orig opt = true) (s r : Cpu) :
-    (∃ n, run extF orig n 0 s = some r) ↔ (∃ m, run extF opt m 0 s = some r) := by
+    every behaviour of the instructions outside the reasoned set: when `orig` returns, `opt` returns too, in a
+    state that agrees with it in A, X, Y, the stack pointer, the V flag and all of memory (the N, Z and C flags
+    are not part of what a function hands back: `exitDead`) — and conversely -/
+theorem validate_sound (extF : Nat → Cpu → Cpu) (orig opt : VCode) (h : validate orig opt = true) (s : Cpu) :
+    (∀ r, (∃ n, run extF orig n 0 s = some r) → ∃ m r', run extF opt m 0 s = some r' ∧ Agree exitDead r r') ∧
+    (∀ r', (∃ m, run extF opt m 0 s = some r') → ∃ n r, run extF orig n 0 s = some r ∧ Agree exitDead r r') := by
   have acc := accepted_of_validate orig opt h
   constructor
-  · rintro ⟨n, hn⟩; exact sim_fwd extF orig opt acc n 0 s s r (inv_entry orig opt acc s) hn
-  · rintro ⟨m, hm⟩; exact sim_bwd extF orig opt acc m 0 s s r (inv_entry orig opt acc s) hm
+  · rintro r ⟨n, hn⟩; exact sim_fwd extF orig opt acc n 0 s s r (inv_entry orig opt acc s) hn
+  · rintro r' ⟨m, hm⟩; exact sim_bwd extF orig opt acc m 0 s s r' (inv_entry orig opt acc s) hm
 
 end CV.Valid
